@@ -20,6 +20,7 @@ import (
 	"testing"
 	"testing/synctest"
 	"time"
+	"unsafe"
 
 	"github.com/jech/storrent/alloc"
 	"github.com/jech/storrent/config"
@@ -65,7 +66,7 @@ type Swarm struct {
 	amu     sync.Mutex
 	actions []string
 	tags    map[string]bool // hostile input classes since the last cut (violation signatures name them)
-	Base    int64 // alloc.Bytes() at bubble start
+	Base    int64           // alloc.Bytes() at bubble start
 	Start   time.Time
 }
 
@@ -331,7 +332,8 @@ type PeerView struct {
 	AmUnchoking bool
 	Interested  bool
 	Unchoked    bool
-	UploadQ     int // len(peer.requested)
+	UploadQ     int  // len(peer.requested)
+	Exiting     bool // Peer.Done is closed: Run is in (or past) its exit path, the torrent may not have removed it yet
 	Missing     string
 }
 
@@ -396,6 +398,22 @@ func viewPeer(p reflect.Value) PeerView {
 	}
 	if f := need("requested"); f.IsValid() {
 		pv.UploadQ = f.Len()
+	}
+	if f := need("Done"); f.IsValid() {
+		// closed (receive succeeds at once) or open (would block); nothing is ever sent on it
+		if f.CanAddr() {
+			if ch, ok := reflect.NewAt(f.Type(), unsafe.Pointer(f.UnsafeAddr())).Elem().Interface().(chan struct{}); ok {
+				select {
+				case <-ch:
+					pv.Exiting = true
+				default:
+				}
+			} else {
+				pv.Missing = "Done (chan struct{})"
+			}
+		} else {
+			pv.Missing = "Done (addressable)"
+		}
 	}
 	return pv
 }
